@@ -129,6 +129,12 @@ def t_buffer_direct(E):
         if one:
             E.oblige(MOD + '.BufferAsyncCalls.__init__/ensures.task_runs_on_the_instances_loop',
                      z3.BoolVal(tasks[0].fields['loop'] is r.fields.get('loop')), props={'C15', 'C08'})
+        q = r.fields.get('q')
+        E.oblige(MOD + '.BufferAsyncCalls.__init__/ensures.argument_queue_is_a_plain_unbounded_queue',
+                 z3.BoolVal(isinstance(q, Obj) and q.cls == 'AQueue' and isinstance(q.fields.get('maxsize'), VInt)
+                            and q.fields['maxsize'].concrete() == 0), props={'C03', 'C08', 'C07', 'C15'},
+                 detail='_put() hands over with put_nowait from a loop callback: on a bounded queue a burst beyond the '
+                        'bound raises QueueFull there and the argument is dropped')
         ev = r.fields.get('event')
         okev = isinstance(ev, Obj) and ev.cls == 'AEvent'
         E.oblige(MOD + '.BufferAsyncCalls.__init__/ensures.completion_flag_starts_set',
